@@ -8,7 +8,7 @@ COMMON_TRUSTED = [
 ]
 
 PROPS = {}
-HOOK_COMMITS = ["f0964c3", "f0ee85c", "a38392f", "da161e5", "5e35e30", "48a35e4", "bcc879f", "e7e32d2", "7bc6616"]
+HOOK_COMMITS = ["f0964c3", "f0ee85c", "a38392f", "da161e5", "5e35e30", "48a35e4", "bcc879f", "e7e32d2", "7bc6616", "1d0b9a9"]
 NOT_BUILT_REASON = "no check registered yet: the Lean model/theorems and the correspondence harness for this property have not been built in this session (work in progress, see DESIGN.md §12); the technique applies"
 
 PROPS["C05"] = {
@@ -148,7 +148,7 @@ PROPS["C10"] = {
 }
 
 PROPS["C03"] = {
-    "modules": ["Gmsm.Props.C03", "Gmsm.Props.C03Alg", "Gmsm.Proofs.ECFormulas"],
+    "modules": ["Gmsm.Props.C03", "Gmsm.Props.C03Alg", "Gmsm.Proofs.ECFormulas", "Gmsm.Props.C03Mult"],
     "theorems": [
         "Props.C03.params_eq_std", "Props.C03.rinverse_ok", "Props.C03.p_prime", "Props.C03.n_prime", "Props.C03.a_eq_neg3",
         "Props.C03.G_on_curve", "Props.C03.nG_zero", "Props.C03.G_ne_zero", "Props.C03.table_ok",
@@ -156,27 +156,27 @@ PROPS["C03"] = {
         "Props.C03Alg.wnafLoop_value", "Props.C03Alg.wnafLoop_isSome", "Props.C03Alg.wnaf_value", "Props.C03Alg.windowEval_correct",
         "Proofs.ECFormulas.double_correct", "Proofs.ECFormulas.addMixed_correct", "Proofs.ECFormulas.addGeneric_correct",
         "Proofs.ECFormulas.addGeneric_opposite", "Proofs.ECFormulas.double_point", "Proofs.ECFormulas.addMixed_point",
-        "Proofs.ECFormulas.addGeneric_point", "Proofs.ECFormulas.addGeneric_opposite_point",
+        "Proofs.ECFormulas.addGeneric_point", "Proofs.ECFormulas.addGeneric_opposite_point", "Props.C03Mult.pointAdd_correct", "Props.C03Mult.double_correct_J", "Props.C03Mult.pointSub_correct", "Props.C03Mult.toAffine_correct", "Props.C03Mult.fromAffine_valid", "Props.C03Mult.isOnCurve_iff", "Props.C03Mult.apiAdd_correct", "Props.C03Mult.apiDouble_correct", "Props.C03Mult.cubic_no_root", "Props.C03Mult.group_order", "Props.C03Mult.every_point_order_n", "Props.C03Mult.wnafReversed_correct", "Props.C03Mult.scalarMultDigits_correct", "Props.C03Mult.scalarMult_correct", "Props.C03Mult.scalarMult_correct_k", "Props.C03Mult.scalarBaseMult_correct_J", "Props.C03Mult.scalarBaseMult_correct", "Props.C03Mult.scalarBaseMult_eq_scalarMult",
     ],
     "gen_items": ["sm2."],
     "gen_obligations": ["Gen.SM2.param*/precomputed regenerated from sm2/p256.go: parameters re-proved equal to GM/T 0003.5, comb table re-proved equal to the 30 multiples of G (kernel evaluation)"],
     "level": "proof",
-    "claim": "Proved in Lean 4: p and n are prime (Pratt certificates), the parameters in the source are the standard's, G is on the curve and [n]G = O, every entry of the comb table in the source is the multiple of G it must be, the key range; the windowed-NAF recoding represents every scalar (loop invariant, termination within fuel), the evaluation loop of ScalarMult computes (value of digits)*P over any commutative group, and the Jacobian doubling / mixed addition / general addition formulas exactly as the Go code computes them equal the group law of Mathlib's Weierstrass curve (incl. z = 0 for opposite points). The Go algorithms are modelled at big-integer level (Model.SM2Curve) and compared with the real code on thousands of biased scalars/points, and the real code is compared with an independent affine specification.",
+    "claim": "Proved in Lean 4: p and n are prime (Pratt certificates), the parameters in the source are the standard's, G is on the curve and [n]G = O, every entry of the comb table in the source is the multiple of G it must be, the key range; the windowed-NAF recoding represents every scalar (loop invariant, termination within fuel), the evaluation loop of ScalarMult computes (value of digits)*P over any commutative group, and the Jacobian doubling / mixed addition / general addition formulas exactly as the Go code computes them equal the group law of Mathlib's Weierstrass curve (incl. z = 0 for opposite points). The Go algorithms are modelled at big-integer level (Model.SM2Curve) and compared with the real code on thousands of biased scalars/points, and the real code is compared with an independent affine specification. Added (C03Mult, Proofs.SM2Jacobian): end-to-end correctness of the model of the Go curve object against the group: pointAdd_correct for ALL pairs of Jacobian points (equal, opposite, at infinity — the repaired special cases), doubling, subtraction, affine conversion; group_order (the curve has exactly n points, so every point has order n and no point of order 2..6 exists); scalarMult_correct (wNAF window loop: for every point on the curve and every scalar, ScalarMult returns [k mod n]P) and scalarBaseMult_correct (comb method over the regenerated table: for every k, [k mod n]G; the incomplete mixed addition's special cases are proved unreachable for k < n); isOnCurve_iff, apiAdd_correct, apiDouble_correct against the affine specification.",
     "note": "Partial where stated: the composition 'J-level model = k*P for all k' is not closed as one theorem (the pieces - recoding, evaluation loop, formulas - are; the exceptional-case side conditions of the comb for scalars < n are not proved), and the 9-limb Montgomery field arithmetic below the big-integer model is validated by correspondence (boundary limb patterns through IsOnCurve and the public API), not verified.",
     "trusted_base": [
         "Spec.SM2 affine arithmetic transcribes GM/T 0003.1 (validated: [n]G = O, the standard's signature and key-exchange examples)",
         "Model.SM2Curve mirrors p256.go Add/Double/ScalarMult/ScalarBaseMult/sm2GenrateWNaf at big-integer level; tie = mec*/wnaf correspondence (hook sm2.VerifWNaf); limb-level code (sm2P256Mul/Square/ReduceDegree...) is NOT modelled",
     ],
     "assumptions": [],
-    "not_proved": ["scalarMult_correct / scalarBaseMult_correct as single end-to-end theorems about Model.SM2Curve (side conditions of incomplete mixed addition in the comb)", "limb-level field arithmetic (layer L): add_ok, mul_ok, reduceDegree_ok", "isOnCurve_iff at limb level"],
+    "not_proved": ["limb-level field arithmetic (layer L): add_ok, mul_ok, reduceDegree_ok", "the input (0,0) used as infinity by ScalarMult (the model builds the non-curve point (0,0,1); no claim)"],
 }
 
 PROPS["C01"] = {
-    "modules": ["Gmsm.Props.C01", "Gmsm.Props.C03", "Gmsm.Props.SM2Group"],
+    "modules": ["Gmsm.Props.C01", "Gmsm.Props.C03", "Gmsm.Props.SM2Group", "Gmsm.Props.C14Codec"],
     "theorems": [
         "Props.C01.verify_range", "Props.C01.verify_altered_msg_iff", "Props.C01.verify_sign", "Props.C01.smul_mod_order",
         "Props.C01.der_roundtrip", "Props.C01.der_trailing_rejected", "Props.C01.decIntContent_intContent",
-        "Props.C03.nonce_range", "Props.C03.n_prime", "Props.SM2Group.verify_signWith", "Proofs.SM2Affine.padd_eq", "Proofs.SM2Affine.smul_eq", "Proofs.SM2Affine.invMod_eq", "Proofs.SM2Affine.toPoint_inj", "Props.SM2Group.smul_mod_G",
+        "Props.C03.nonce_range", "Props.C03.n_prime", "Props.SM2Group.verify_signWith", "Proofs.SM2Affine.padd_eq", "Proofs.SM2Affine.smul_eq", "Proofs.SM2Affine.invMod_eq", "Proofs.SM2Affine.toPoint_inj", "Props.SM2Group.smul_mod_G", "Props.C14Codec.der_canonical", "Props.C14Codec.der_unique", "Props.C14Codec.der_canonical_iff", "Props.C14Codec.der_roundtrip_all", "Props.C14Codec.decLen_encLen_all",
     ],
     "gen_items": ["sm2."],
     "level": "proof",
@@ -184,14 +184,14 @@ PROPS["C01"] = {
     "note": "Hardness is never assumed as an axiom: soundness is the characterisation theorem. The group-law facts the completeness algebra needs are C03's. Not proved: der_canonical (decode b = some (r,s) -> b = encode (r,s)); 'two signatures never share r' is reduced to fresh reader bytes (nonce = f(40 fresh bytes), checked by the consumed-bytes count in the correspondence).",
     "trusted_base": ["Spec.SM2.signWith/verifyE/za transcribe GM/T 0003.2; tie to sm2.go by sm2sign/sm2signder/sm2verify/sm2verifyder correspondence with deterministic readers; cryptobyte DER parsing is x/crypto code"],
     "assumptions": ["none at the level of the specification (Spec.SM2 is proved to be the group: Proofs.SM2Affine); that the Go limb arithmetic computes the same values is tied by the correspondence run (C03)"],
-    "not_proved": ["der_canonical", "distinct_nonce_distinct_r"],
+    "not_proved": ["distinct_nonce_distinct_r"],
 }
 
 PROPS["C02"] = {
-    "modules": ["Gmsm.Props.C02", "Gmsm.Props.SM2Group"],
+    "modules": ["Gmsm.Props.C02", "Gmsm.Props.SM2Group", "Gmsm.Props.C14Codec"],
     "theorems": [
         "Props.C02.decrypt_rejects_short", "Props.C02.decrypt_rejects_offcurve", "Props.C02.decrypt_accepts_hash",
-        "Props.C02.altered_implies_collision", "Props.C02.kdf_length", "Props.C02.encrypt_empty_none", "Props.SM2Group.decrypt_encrypt", "Props.SM2Group.decrypt_encrypt_gen", "Props.SM2Group.smul_smul_comm", "Proofs.SM2Affine.padd_eq", "Proofs.SM2Affine.smul_eq",
+        "Props.C02.altered_implies_collision", "Props.C02.kdf_length", "Props.C02.encrypt_empty_none", "Props.SM2Group.decrypt_encrypt", "Props.SM2Group.decrypt_encrypt_gen", "Props.SM2Group.smul_smul_comm", "Proofs.SM2Affine.padd_eq", "Proofs.SM2Affine.smul_eq", "Props.C14Codec.cipher_asn1_roundtrip",
     ],
     "gen_items": ["sm2."],
     "level": "proof",
@@ -199,14 +199,14 @@ PROPS["C02"] = {
     "note": "decrypt(encrypt m) = m as a Lean theorem needs [d][k]G = [k][d]G for the Nat-level affine arithmetic, i.e. the group structure of Spec.SM2.padd, which is only established through Mathlib's curve for the Jacobian formulas (C03); the round trip is therefore decided by correspondence (real code decrypts what it encrypted, and equals the spec) and listed as not proved.",
     "trusted_base": ["Spec.SM2 transcription of GM/T 0003.4; tie by sm2enc/sm2dec correspondence; encoding/asn1 is stdlib"],
     "assumptions": [],
-    "not_proved": ["cipher_asn1_roundtrip as a theorem"],
+    "not_proved": ["PEM armour and PKIX wrappers (stdlib)"],
 }
 
 PROPS["C13"] = {
-    "modules": ["Gmsm.Props.C13", "Gmsm.Props.SM2Group"],
+    "modules": ["Gmsm.Props.C13", "Gmsm.Props.SM2Group", "Gmsm.Props.C14Codec"],
     "theorems": [
         "Props.C13.shared_point_agree", "Props.C13.reduce_scalar", "Props.C13.xbar_range", "Props.C13.xbar_mod",
-        "Props.C13.offcurve_rejected", "Props.C13.infinity_not_on_curve", "Props.C13.outputs_from_V", "Props.SM2Group.kex_agree", "Props.SM2Group.smul_smul_comm_G", "Props.SM2Group.smul_mul_mod_G", "Props.SM2Group.addOrderOf_G",
+        "Props.C13.offcurve_rejected", "Props.C13.infinity_not_on_curve", "Props.C13.outputs_from_V", "Props.SM2Group.kex_agree", "Props.SM2Group.smul_smul_comm_G", "Props.SM2Group.smul_mul_mod_G", "Props.SM2Group.addOrderOf_G", "Props.C14Codec.keXHat_eq",
     ],
     "gen_items": ["sm2."],
     "level": "proof",
@@ -214,23 +214,23 @@ PROPS["C13"] = {
     "note": "Trusted: the transcription of GM/T 0003.3 (validated on the published example: K = 6C893473..., S1 = D3A0FE15..., S2 = 18C7894B...); group facts from C03.",
     "trusted_base": ["Spec.SM2.kex; tie by sm2kex/sm2kexbad correspondence"],
     "assumptions": [],
-    "not_proved": ["keXHat byte-level Go function = xbar as a theorem (compared through kex on keys with short coordinates)"],
+    "not_proved": ["the byte-level glue of KeyExchangeA/B around keXHat (ZA computation, KDF input assembly) as a model"],
 }
 
 PROPS["C14"] = {
-    "modules": ["Gmsm.Props.C14"],
+    "modules": ["Gmsm.Props.C14", "Gmsm.Props.C14Codec"],
     "theorems": [
         "Props.C14.hex_roundtrip", "Props.C14.hex_priv_roundtrip", "Props.C14.pub_encoding_roundtrip",
         "Props.C14.sig_asn1_roundtrip", "Props.C14.compress_x_roundtrip", "Props.C14.loader_accepts_iff",
-        "Props.C14.b32_length", "Gmsm.os2ip_i2ospR", "Gmsm.os2ip_natBytes",
+        "Props.C14.b32_length", "Gmsm.os2ip_i2ospR", "Gmsm.os2ip_natBytes", "Props.C14Codec.compress_roundtrip", "Props.C14Codec.decompress_of_parity", "Props.C14Codec.decompress_sound", "Props.C14Codec.decompress_eq_none_iff", "Props.C14Codec.compress_decompress", "Props.C14Codec.no_point_with_y_zero", "Props.C14Codec.cipher_asn1_roundtrip", "Props.C14Codec.cipher_asn1_roundtrip_der", "Props.C14Codec.cipher_asn1_roundtrip_xy", "Props.C14Codec.cipherMarshal_eq_spec", "Props.C14Codec.parseLength_marshalLength", "Props.C14Codec.leftPad32_natBytes_os2ip", "Props.C14Codec.os2ip_inj",
     ],
     "gen_items": ["sm2."],
     "level": "proof",
-    "claim": "The codecs the library implements itself are specified in Lean and proved to round-trip for every value: hexadecimal text of any byte string, the fixed 32-byte big-endian integers behind the hex / uncompressed / compressed key forms (incl. leading zero nibbles and bytes), strict DER of (r,s); the loaders' decision is equality of the public points. The real code is compared with these specs (exact text/bytes) and every write->read pair is checked for equality on every run: hex private and public keys, compressed points (and Decompress on malformed input against a square-root spec), ASN.1 signatures and ciphertexts with short and high-bit integers, PKCS#8 PEM with nil / empty / ASCII / UTF-8 / 1 KiB passwords and wrong passwords differing in one character, case or length, PKIX public-key PEM, and all six key-pair loaders with the matching key, another key and the negated key.",
+    "claim": "The codecs the library implements itself are specified in Lean and proved to round-trip for every value: hexadecimal text of any byte string, the fixed 32-byte big-endian integers behind the hex / uncompressed / compressed key forms (incl. leading zero nibbles and bytes), strict DER of (r,s); the loaders' decision is equality of the public points. The real code is compared with these specs (exact text/bytes) and every write->read pair is checked for equality on every run: hex private and public keys, compressed points (and Decompress on malformed input against a square-root spec), ASN.1 signatures and ciphertexts with short and high-bit integers, PKCS#8 PEM with nil / empty / ASCII / UTF-8 / 1 KiB passwords and wrong passwords differing in one character, case or length, PKIX public-key PEM, and all six key-pair loaders with the matching key, another key and the negated key. Added (C14Codec): byte-level models of Compress / Decompress (square root by exponentiation for p = 3 mod 4, parity fix-up) and of CipherMarshal / CipherUnmarshal (DER integers, left-padding to 32 bytes, encoding/asn1's length rules) with compress_roundtrip (every point on the curve, no side condition: the curve has no point with y = 0), decompress_sound, decompress_eq_none_iff, cipher_asn1_roundtrip (every raw ciphertext below 2^31 bytes, incl. leading-zero and high-bit coordinates) and cipherMarshal_eq_spec; the driver evaluates these models next to the spec (compressm / decompressm / cipherasn1m).",
     "note": "Partial: PKCS#8/PKIX/PEM whole-object round trips and password rejection go through encoding/asn1, encoding/pem, crypto/aes, PBKDF2 (stdlib) and are decided by read-back equality in the correspondence run, not by a theorem; compress_roundtrip's y-recovery (Euler criterion) is compared against a Lean square-root spec, not proved.",
     "trusted_base": ["toHex/ofHex, i2ospR, Spec.DER; tie by the C14 op set of the harness (intrinsic read-back oracles + exact encodings)"],
     "assumptions": [],
-    "not_proved": ["compress_roundtrip (square root recovery)", "pkcs8_enc_roundtrip / wrong password rejected as theorems", "cipher_asn1_roundtrip as a theorem"],
+    "not_proved": ["pkcs8_enc_roundtrip / wrong password rejected as theorems", "PEM armour and PKIX wrappers (stdlib)"],
 }
 
 PROPS["C09"] = {
